@@ -279,9 +279,43 @@ def run(ck):
     c = (x == y)
     if not (isinstance(c, Bits) and c.nbits == 1 and int(c & 1) == 1 and int(~c) == 0):
       ck.violation('cmp-result', {'kind': 'cmp-feedback'}, ['cmpfb', n, a], {'impl': repr(c)})
+  # hash() after a history of in-place updates (hash is in the property's operator list)
+  OPS = ['imatmul-int', 'imatmul-neg', 'imatmul-bits', 'ilshift-flip', 'setbit', 'setslice']
+  for _ in range(600 if ck.tier == 'quick' else 20000):
+    n = bu.rand_width(rng); a = bu.rand_value(rng, n)
+    ops = [(rng.choice(OPS), bu.rand_value(rng, n)) for _ in range(rng.randint(1, 4))]
+    case = [n, a, ops]
+    ok, msg = hash_history(ck, case)
+    ck.count(['hash-history'] + case, True); ck.hist('kind', 'hash-history')
+    if not ok:
+      ck.violation('hash-after-history', {'kind': 'hash', 'last_op': ops[-1][0]}, ['hash-history'] + case,
+                   {'impl': msg, 'oracle': 'hash(x) == hash(Bits(n, value of x)) after any sequence of in-place updates; equal values hash equal'})
+
+def hash_history(ck, case):
+  """hash() of a Bits is a function of (nbits, value) whatever happened to the object before: `case` = [n, a, ops] applies
+  the in-place operations `ops` to Bits(n, a), reading hash() before each of them, and compares the final hash with that
+  of a fresh object of the same value (equal values must hash equal, also as dict / set keys)."""
+  n, a, ops = case
+  x = bu.mk(n, a)
+  M = (1 << n) - 1
+  for (op, v) in ops:
+    hash(x)
+    if op == 'imatmul-int': x @= v
+    elif op == 'imatmul-neg': x @= -((-v) & (M >> 1)) - 1 if n > 1 else 0
+    elif op == 'imatmul-bits': x @= bu.mk(n, v)
+    elif op == 'ilshift-flip':
+      x <<= v; x._flip()
+    elif op == 'setbit': x[v % n] = 1 - int(x[v % n])
+    elif op == 'setslice' and n >= 2:
+      lo = v % (n - 1); x[lo:lo + 1] = 1 - int(x[lo])
+  fresh = bu.mk(n, int(x.uint()))
+  ok = (hash(x) == hash(fresh) and bool(x == fresh) and (x in {fresh}) and ({x: 1}.get(fresh) == 1))
+  return ok, f'value {int(x.uint())}: hash(x)={hash(x)} hash(fresh)={hash(fresh)} eq={bool(x == fresh)}'
 
 def replay(ck, data):
   c = data['case']
+  if c and c[0] == 'hash-history':
+    ok, msg = hash_history(ck, c[1:]); print(msg); return 0 if ok else 1
   m = ck.driver.batch([model_line(c)])[0]
   impl = impl_eval(c)
   print(f'case={c}\nmodel={m}\nimpl={impl}\nspec accepts={sorted(spec(c))}')
